@@ -9,12 +9,17 @@ from vcheck.val import exc_code
 MOLTYPES = ["dna", "rna", "protein", "text"]
 
 
+# row names: several are proper substrings / prefixes of one another
+NAMES = ["Mouse", "Mouse_2", "Mo", "use_2", "Mouse_2b"]
+
+
 def name_of(i):
-    return f"s{i}"
+    return NAMES[i] if 0 <= i < len(NAMES) else f"s{i}"
 
 
 def id_of(name):
-    return int(str(name)[1:])
+    name = str(name)
+    return NAMES.index(name) if name in NAMES else int(name[1:])
 
 
 def build(case, rows=None, arr=None):
@@ -119,11 +124,59 @@ def make_pred(aln, chars):
     return pred
 
 
+ARGS = {}   # per case: operation (as JSON) -> the argument objects handed to the library, re-used on every call
+
+
+def op_args(op):
+    """the mutable / caller-owned argument objects of an operation: built once per case and handed again to every
+    later call of the same operation (also after a class conversion), as a caller keeping its index array would"""
+    import json
+
+    key = json.dumps(op, sort_keys=True)
+    if key not in ARGS:
+        o = op["op"]
+        if o == "sample":
+            ARGS[key] = {"locs": numpy.array(op["locs"], dtype=int)}
+        elif o == "takepos":
+            ARGS[key] = {"cols": list(op["cols"])}
+        elif o == "takeseqs":
+            names = [name_of(i) for i in op["names"]]
+            ARGS[key] = {"names": names[0] if op.get("as_str") and len(names) == 1 else names}
+        elif o == "addrows":
+            ARGS[key] = {"rows": list(op["rows"]), "perm": list(op.get("perm") or range(len(op["rows"])))}
+        else:
+            ARGS[key] = {}
+    return ARGS[key]
+
+
+def snapshot(args):
+    out = {}
+    for k, v in args.items():
+        out[k] = v.copy() if isinstance(v, numpy.ndarray) else (list(v) if isinstance(v, list) else v)
+    return out
+
+
+def same_args(a, b):
+    for k in a:
+        x, y = a[k], b[k]
+        if isinstance(x, numpy.ndarray) or isinstance(y, numpy.ndarray):
+            if not (isinstance(x, numpy.ndarray) and isinstance(y, numpy.ndarray) and x.dtype == y.dtype
+                    and numpy.array_equal(x, y)):
+                return False
+        elif x != y or type(x) is not type(y):
+            return False
+    return True
+
+
+REUSE_KINDS = ("sample", "takepos", "takeseqs", "addrows")
+
+
 def apply_op(aln, op, case):
     from cogent3 import make_aligned_seqs
     from cogent3.core.alignment import ArrayAlignment
 
     o = op["op"]
+    args = op_args(op)
     if o == "slice":
         return aln[op["a"]:op["b"]]
     if o == "slicestep":
@@ -135,15 +188,19 @@ def apply_op(aln, op, case):
     if o == "addself":
         return aln + aln
     if o == "addrows":
-        other = make_aligned_seqs({n: s for n, s in zip(aln.names, op["rows"])}, moltype=aln.moltype,
-                                  array_align=isinstance(aln, ArrayAlignment))
+        # rows[i] belongs to the i-th name of aln; the right operand lists the names in its own (permuted) order
+        names = list(aln.names)
+        pairs = [(names[j], args["rows"][j]) for j in args["perm"] if j < len(names)]
+        if len(pairs) != len(args["rows"]):
+            pairs = list(zip(names, args["rows"]))
+        other = make_aligned_seqs(dict(pairs), moltype=aln.moltype, array_align=isinstance(aln, ArrayAlignment))
         return aln + other
     if o == "addslices":
         return aln[op["a"]:op["b"]] + aln[op["c"]:op["d"]]
     if o == "takepos":
-        return aln.take_positions(list(op["cols"]), negate=bool(op["negate"]))
+        return aln.take_positions(args["cols"], negate=bool(op["negate"]))
     if o == "takeseqs":
-        return aln.take_seqs([name_of(i) for i in op["names"]], negate=bool(op["negate"]))
+        return aln.take_seqs(args["names"], negate=bool(op["negate"]))
     if o == "no_degen":
         return aln.no_degenerates(motif_length=op["motif"], allow_gap=bool(op["allow_gap"]))
     if o == "omit_gap":
@@ -155,9 +212,9 @@ def apply_op(aln, op, case):
     if o == "degaprel":
         return aln.get_degapped_relative_to(name_of(op["name"]))
     if o == "sample":
-        locs = numpy.array(op["locs"], dtype=int)
+        locs = args["locs"]   # the caller's own index array, handed over as it is
         return aln.sample(n=len(locs), with_replacement=True, motif_length=op["motif"],
-                          randint=lambda lo, hi, n: locs.copy())
+                          randint=lambda lo, hi, n: locs)
     if o == "to_rna":
         return aln.to_rna()
     if o == "to_dna":
@@ -241,7 +298,12 @@ def run_new_collection(case):
             elif o == "to_dna":
                 new = coll.to_dna()
             elif o == "takeseqs":
-                new = coll.take_seqs([name_of(i) for i in op["names"]], negate=bool(op["negate"]))
+                names = [name_of(i) for i in op["names"]]
+                arg = names[0] if op.get("as_str") and len(names) == 1 else names
+                keep = list(arg) if isinstance(arg, list) else arg
+                new = coll.take_seqs(arg, negate=bool(op["negate"]))
+                if arg != keep:
+                    raise RuntimeError("take_seqs modified its argument")
             elif o == "degap":
                 new = coll.degap()
             else:
@@ -282,15 +344,34 @@ def run_case(case):
     first = observe(aln, case)
     steps = []
     init = aln
+    ARGS.clear()
     for op in case["ops"]:
         cur = init if case.get("indep") else aln
+        args = op_args(op)
+        before = snapshot(args)
+        extra = {}
         try:
             new = apply_op(cur, op, case)
         except Exception as e:  # noqa: BLE001
-            steps.append({"exc": exc_code(e), "cls": type(e).__name__, "msg": str(e)[:200]})
+            st = {"exc": exc_code(e), "cls": type(e).__name__, "msg": str(e)[:200]}
+            if not same_args(before, args):
+                st["args_modified"] = True
+            steps.append(st)
             continue
+        if not same_args(before, args):
+            extra["args_modified"] = True
+        if op["op"] in REUSE_KINDS and new is not None and not (isinstance(new, dict) and not new):
+            # same alignment, same argument objects, once more: same result
+            try:
+                again = apply_op(cur, op, case)
+                if again is None or list(again.names) != list(new.names) or again.to_dict() != new.to_dict():
+                    extra["repeat_differs"] = True
+            except Exception as e:  # noqa: BLE001
+                extra["repeat_differs"] = type(e).__name__
+            if not same_args(before, args):
+                extra["args_modified"] = True
         if new is None or (isinstance(new, dict) and not new):
-            steps.append({"exc": 0, "cls": "returned-none"})
+            steps.append(dict({"exc": 0, "cls": "returned-none"}, **extra))
             continue
         try:
             ob = observe(new, case, ro=not case.get("indep") or case.get("ro"))
@@ -298,6 +379,7 @@ def run_case(case):
             steps.append({"exc": exc_code(e), "cls": type(e).__name__, "msg": "observing the result: " + str(e)[:200],
                           "at": "observe"})
             continue
+        ob.update(extra)
         steps.append(ob)
         aln = new
     try:
